@@ -56,7 +56,7 @@ KF_JS_CATEGORIES = "KF-C17-js-product-categories"
 # stage → open finding: differences confined to that stage text are the listed defect (fix offered in fixes/)
 PENDING: Dict[str, str] = {"js_product_categories": KF_JS_CATEGORIES}
 KF_TIE_KEY = "KF-C17-formation-tie-key"
-MATRIX_KINDS = ("pipeline", "refine", "filter", "hmmer", "region", "ruleset", "formation")
+MATRIX_KINDS = ("pipeline", "refine", "filter", "hmmer", "region", "ruleset", "formation", "sideload")
 PIPELINE_STAGES = ["detect", "annotate", "rule_results_json", "module_json", "candidates", "regions", "areas_json",
                    "record_json", "genbank"]
 
@@ -204,6 +204,11 @@ class C17(Property):
         ("antismash/common/hmm_rule_parser/cluster_prediction.py", "CDSResults.to_json"),
         ("antismash/common/hmm_rule_parser/cluster_prediction.py", "RuleDetectionResults.to_json"),
         ("antismash/common/hmm_rule_parser/cluster_prediction.py", "filter_results"),
+        ("antismash/common/hmm_rule_parser/cluster_prediction.py", "build_results"),
+        ("antismash/common/hmm_rule_parser/cluster_prediction.py", "detect_protoclusters_and_signatures"),
+        ("antismash/detection/sideloader/general.py", "load_single_record_annotations"),
+        ("antismash/detection/sideloader/data_structures.py", "SideloadedResults.to_json"),
+        ("antismash/detection/sideloader/data_structures.py", "SideloadedResults.add_to_record"),
         ("antismash/common/hmm_rule_parser/cluster_prediction.py", "Ruleset.get_rule_names"),
         ("antismash/detection/hmm_detection/__init__.py", "run_on_record"),
         ("antismash/common/secmet/features/region/structures.py", "Region.get_unique_protoclusters"),
@@ -376,6 +381,10 @@ class C17(Property):
             yield self.rand_write(rng)
         for _ in range(500 * min(mult, 4)):
             yield self.rand_areas(rng)
+        for _ in range(400 * min(mult, 4)):
+            yield self.rand_outside(rng)
+        for _ in range(400 * mult):
+            yield self.rand_bycds(rng)
         if deep:
             yield from self.small_scope()
 
@@ -703,6 +712,74 @@ class C17(Property):
             obs["formed"] = {"err": err_kind(exc)}
         return obs
 
+    # ------------------------------------------------------------------ build_results / --sideload-by-cds
+    def rand_outside(self, rng: random.Random) -> Dict[str, Any]:
+        """a record that already has subregions holding several genes with profile hits that end up in no protocluster"""
+        length = 600
+        genes: List[Dict[str, Any]] = []
+        for k in rng.sample(range(0, 18), rng.choice([3, 4, 5, 6, 7])):
+            lo = k * 30
+            hits = rng.sample(["a", "b", "c"], rng.choice([0, 1, 1, 2]))
+            genes.append({"name": f"g{len(genes)}", "loc": {"c": False, "parts": [[lo, lo + 30, rng.choice([1, -1])]]},
+                          "hits": [[p, 10] for p in hits]})
+        subs = []
+        for _ in range(rng.choice([1, 1, 2])):
+            lo = rng.choice([0, 30, 90, 150])
+            subs.append([lo, min(length, lo + rng.choice([150, 240, 390]))])
+        cond = rng.choice(["a", "a and b", "d", "a or c"])
+        return {"kind": "outside", "len": length, "circ": False, "profiles": ["a", "b", "c", "d"], "cats": ["cat0"],
+                "rules": f"RULE ra CATEGORY cat0 CUTOFF 1 NEIGHBOURHOOD 1 CONDITIONS {cond}\n", "dist": [[rng.choice([10, 40]), 10]],
+                "genes": genes, "subs": subs, "pseed": rng.randrange(1 << 30)}
+
+    def impl_outside(self, case: Dict[str, Any]) -> Dict[str, Any]:
+        from antismash.common import json as ajson
+        from antismash.common.hmm_rule_parser import cluster_prediction as cp
+        from .c17_child import build_record, build_ruleset
+        prng = random.Random(case["pseed"])
+        outs = []
+        extra: Dict[str, Any] = {}
+        keep = []
+        for _ in range(5):
+            rec = build_record(case, lambda: shake_heap(prng))
+            keep.append(rec)
+            res = cp.detect_protoclusters_and_signatures(rec, build_ruleset(case))
+            names = [r.cds.get_name() for r in res.cdses_outside_clusters]
+            text = ajson.dumps(res.to_json()["outside_protoclusters"])
+            outs.append({"outside": [int(n[1:]) for n in names], "json": text if isinstance(text, str) else text.decode()})
+            if not extra:
+                extra = {"subs": [[int(c.get_name()[1:]) for c in sub.cds_children] for sub in rec.get_subregions()],
+                         "annotated": sorted({int(r.cds.get_name()[1:]) for rs in res.cds_by_cluster.values() for r in rs}),
+                         "with_domains": [i for i, g in enumerate(case["genes"]) if g["hits"]]}
+        obs = self._collect(outs)
+        obs.update(extra)
+        return obs
+
+    def rand_bycds(self, rng: random.Random) -> Dict[str, Any]:
+        length = rng.choice([500, 5000])
+        genes = []
+        for k in rng.sample(range(1, 9), rng.choice([2, 3, 4])):
+            lo = k * (length // 10)
+            genes.append([lo, lo + 30, rng.choice([1, -1])])
+        tags = [rng.randrange(len(genes) + 1) for _ in range(rng.choice([2, 2, 3, 4]))]     # one unknown tag possible
+        return {"kind": "bycds", "len": length, "circ": rng.random() < 0.3, "genes": genes,
+                "tags": [f"g{t}" for t in tags], "pad": rng.choice([20, 60, 20000])}
+
+    def impl_bycds(self, case: Dict[str, Any]) -> Dict[str, Any]:
+        import logging
+        from .c17_child import sideload_by_cds
+        logging.disable(logging.CRITICAL)      # an unknown tag is reported with a warning
+        try:
+            _, results = sideload_by_cds(case)
+        finally:
+            logging.disable(logging.NOTSET)
+        return {"out": [[int(a.start), int(a.end), int(a.label[1:])] for a in results.subregions], "same": True,
+                "protoclusters": len(results.protoclusters)}
+
+    def gen_sideload(self, rng: random.Random) -> Dict[str, Any]:
+        case = self.rand_bycds(rng)
+        case["kind"] = "sideload"
+        return case
+
     # ------------------------------------------------------------------ child matrix (also used by --replay)
     DEFAULT_SPECS = [("0", 0), ("1", 911), ("2", 3517), ("3", 77), ("4", 1203), ("5", 2600), ("6", 40), ("random", 1999)]
 
@@ -741,6 +818,11 @@ class C17(Property):
             return {"k": "uniq", "cross": obs["cross"], "L": obs["Lkey"], "enum": obs["enum"], "impl": obs["out"]}
         if kind == "best":
             return {"k": "best", "eq": case["eq"], "hits": case["hits"]}
+        if kind == "outside":
+            return {"k": "outside", "subs": obs["subs"], "annotated": obs["annotated"], "with_domains": obs["with_domains"]}
+        if kind == "bycds":
+            return {"k": "bycds", "circ": case["circ"], "len": case["len"], "pad": case["pad"],
+                    "genes": [[g[0], g[1]] for g in case["genes"]], "tags": [int(t[1:]) for t in case["tags"]]}
         if kind == "areas":
             if "ps" not in obs:
                 return None
@@ -764,6 +846,19 @@ class C17(Property):
         same = obs["same"]
         if kind == "areas":
             return self.judge_areas(case, obs, drv)
+        if kind == "outside" and drv is not None and "model" in drv:
+            corr = obs["out"]["outside"] == drv["model"] and drv["model"] == drv["model_rev"]
+            tags = ["outside"] + (["outside:set-walk-would-differ"] if drv["set_walk_differs"] else [])
+            detail = "" if same and corr else f"impl {obs['out']['outside']} other {obs.get('other', {}).get('outside')} model {drv['model']}"
+            return Judgement(corr, same, True, None, bool(drv["nontrivial"]), tuple(tags), detail)
+        if kind == "bycds" and drv is not None and "model" in drv:
+            corr = obs["out"] == drv["model"]
+            # the subregions follow the order of the tags on the command line (whether a repeated tag gives a second
+            # subregion is the model's business — correspondence —, not this property's)
+            labels = [a[2] for a in obs["out"]]
+            spec = labels == drv["labels"] or labels == list(dict.fromkeys(drv["labels"]))
+            detail = "" if corr and spec else f"impl {obs['out']} model {drv['model']} tags {case['tags']}"
+            return Judgement(corr, spec, True, None, bool(drv["nontrivial"]), ("bycds",), detail)
         if drv is None or "err" in drv:
             return Judgement(False, same, True, None, False, (kind, "driver-error"), str(drv))
         model = drv["model"]
@@ -880,6 +975,18 @@ class C17(Property):
                     yield dict(case, hits=hits)
             if len(case["eq"]) > 1:
                 yield dict(case, eq=case["eq"][:1])
+        elif kind == "outside":
+            for i in range(len(case["genes"])):
+                if len(case["genes"]) > 1:
+                    genes = [dict(g, name=f"g{j}") for j, g in enumerate(case["genes"][:i] + case["genes"][i + 1:])]
+                    yield dict(case, genes=genes)
+            if len(case["subs"]) > 1:
+                yield dict(case, subs=case["subs"][:1])
+                yield dict(case, subs=case["subs"][1:])
+        elif kind == "bycds":
+            for i in range(len(case["tags"])):
+                if len(case["tags"]) > 1:
+                    yield dict(case, tags=case["tags"][:i] + case["tags"][i + 1:])
         elif kind == "areas":
             for i in range(len(case["ps"])):
                 if len(case["ps"]) > 1:
@@ -1009,6 +1116,12 @@ class C17(Property):
             cases.append(self.gen_ruleset(rng))
         for _ in range(45 * scale):
             cases.append(self.gen_formation(rng))
+        for _ in range(25 * scale):
+            case = self.rand_outside(rng)       # record pipelines with pre-existing subregions
+            case["kind"] = "pipeline"
+            cases.append(case)
+        for _ in range(40 * scale):
+            cases.append(self.gen_sideload(rng))
         return cases
 
     RULE_POOL = ["T1PKS", "NRPS", "T3PKS", "terpene", "lanthipeptide-class-i", "lanthipeptide-class-ii", "thiopeptide",
@@ -1062,6 +1175,9 @@ class C17(Property):
         elif kind == "formation":
             for cand in self.shrink(dict(case, kind="areas")):
                 yield dict(cand, kind="formation")
+        elif kind == "sideload":
+            for cand in self.shrink(dict(case, kind="bycds")):
+                yield dict(cand, kind="sideload")
 
     def child_specs(self, rng: random.Random, tier: str) -> List[Tuple[str, int]]:
         k = 48 if tier == "thorough" else 6
